@@ -1380,6 +1380,14 @@ CORPUS_DATA = [{"a": 1, "b": 2, "c": 3, "d": "s", "e": {"f": "k"}, "f": 1, "g": 
                {"a": False, "b": None, "c": 0, "d": False, "e": None, "l": []}]
 
 
+NOT_TAG_CLASSES = ("ContentNode", "CommentNode", "OutputNode", "ConditionalBlockNode", "MultiExpressionBlockNode")
+
+
+def _is_wrapper_block(n: Any) -> bool:
+    import liquid2.ast as A
+    return type(n) is A.BlockNode
+
+
 MODELLED_ERRORS = ("DisabledTagError", "RequiredBlockError", "TemplateInheritanceError")
 
 
@@ -1502,7 +1510,8 @@ def main(chk: C.Check, build: C.Build) -> None:
             chk.finding(sig, what, {**replay, **info})
         # renders
         bn = bound_names(eng)
-        tag_ids = {i for i, (tn, n) in eng.owner.items() if tag_of(eng, ("T", tn, "", i)) is not None}
+        tag_ids = {i for i, (tn, n) in eng.owner.items()
+                   if type(n).__name__ not in NOT_TAG_CLASSES and not _is_wrapper_block(n) and tag_of(eng, ("T", tn, "", i)) is not None}
         rendered: set[int] = set()
         model_t: list[str] = []
         if renderable:
